@@ -4,7 +4,8 @@ Workload : seeded well-formed FlowIR documents (checks/_c11_gen.py: 2-7 componen
            relative/absolute references with ref/output/copy/link, variables in global/stage/component
            layers and chains, array variables indexed by a literal / another variable / %(replica)s in
            arguments, executable, lsf.queue and numberThreads, options with documented values, replication/aggregation, declaration order
-           shuffled; in 3 of 4 documents some references are spelled through variables - the producer, its name,
+           shuffled; in 2 of 5 documents one or two components are called like a special folder / application
+           dependency / manifest folder up to case (Data, INPUT, MyApp, Mydata; folder declared or not); in 3 of 4 documents some references are spelled through variables - the producer, its name,
            the stage number, the stage prefix, producer and file or the method held in a global / stage /
            component / platform variable or a chain, in the list and/or on the command line - and 1 in 3 of those
            is loaded for a second platform whose variables hold or override them) and, per document, EVERY
@@ -174,7 +175,7 @@ def write_package(doc, files, root):
     return pkg
 
 
-def observe_file(doc, files, materialise=False, platform=None):
+def observe_file(doc, files, materialise=False, platform=None, manifest=None):
     import experiment.model.conf
     root = vlib.mkscratch("c11pkg")
     try:
@@ -182,7 +183,7 @@ def observe_file(doc, files, materialise=False, platform=None):
         try:
             conf = experiment.model.conf.ExperimentConfigurationFactory.configurationForExperiment(
                 pkg, platform=platform, validate=True, primitive=False, createInstanceFiles=False,
-                updateInstanceFiles=False)
+                updateInstanceFiles=False, manifest=dict(manifest) if manifest else None)
         except CaseTimeout:
             raise
         except BaseException as e:  # noqa
@@ -211,7 +212,8 @@ def observe_file(doc, files, materialise=False, platform=None):
             import experiment.model.storage
             import experiment.model.data
             try:
-                ep = experiment.model.storage.ExperimentPackage.packageFromLocation(pkg, platform=platform)
+                ep = experiment.model.storage.ExperimentPackage.packageFromLocation(
+                    pkg, platform=platform, manifest=dict(manifest) if manifest else None)
                 exp = experiment.model.data.Experiment.experimentFromPackage(ep, location=root, platform=platform)
                 exp.validateExperiment(checkExecutables=False)
                 import networkx
@@ -233,7 +235,7 @@ def observe(case):
     if case["api"] == "dict":
         return observe_dict(case["doc"], case.get("manifest") or {}, platform=case.get("platform"))
     return observe_file(case["doc"], case.get("files") or {}, materialise=case.get("materialise", False),
-                        platform=case.get("platform"))
+                        platform=case.get("platform"), manifest=case.get("manifest") or None)
 
 
 def warmup():
@@ -388,7 +390,8 @@ def mut_key(m, base):
     opt = ".".join(str(x) for x in where[1:]) if m["kind"] in ("wrong-type", "misspelt-key", "extra-key") else ""
     return "m|%s|%s|%s|c%d|r%d|%s|p%d|%s" % (m["kind"], m.get("class"), opt, len(base["doc"]["components"]),
                                              int(base["replicated"]), m.get("spell"), int(bool(base.get("platform"))),
-                                             m.get("location"))
+                                             m.get("location")) + "|h%d|rel%d" % (
+        int(bool(base.get("hazard"))), int(bool(m.get("relative"))))
 
 
 ALWAYS_FILE_API = ("duplicate-id", "remove-index-variable", "remove-array-variable", "rename-index-at-use",
@@ -412,8 +415,11 @@ def run_job(job, w):
         ok = True
         platform = base.get("platform")
         for api in ("dict", "file"):
-            case = {"api": api, "doc": doc, "files": base["files"], "manifest": {}, "platform": platform,
-                    "materialise": api == "file" and (this % job["materialise_every"] == 0)}
+            declared = any(h["declared"] for h in base.get("hazard") or [])
+            case = {"api": api, "doc": doc, "files": base["files"], "manifest": base.get("manifest") or {},
+                    "platform": platform,
+                    # a declared application dependency / manifest folder has no real source to link or copy
+                    "materialise": api == "file" and (this % job["materialise_every"] == 0) and not declared}
             out = observe_guarded(case, w)
             if out["status"] == "unknown":
                 w.note_inconclusive("watchdog fired on a base document but confirmation was not conclusive")
@@ -437,6 +443,10 @@ def run_job(job, w):
         w.distinct(base_key(base))
         if base["replicated"]:
             w.count("base_replicated")
+        if base.get("hazard"):
+            w.count("base_with_folder_like_component_names")
+            for h in base["hazard"]:
+                w.count("folder_like_name_%s_%s" % (h["kind"], "declared" if h["declared"] else "undeclared"))
         if base.get("spelled"):
             w.count("base_with_variable_spelled_references")
             w.count("variable_spelled_reference_sites", len(base["spelled"]))
@@ -462,7 +472,8 @@ def run_job(job, w):
                 apis.append("file")
             outs = {}
             for api in apis:
-                case = {"api": api, "doc": m["doc"], "files": base["files"], "manifest": {}, "platform": platform}
+                case = {"api": api, "doc": m["doc"], "files": base["files"], "manifest": base.get("manifest") or {},
+                        "platform": platform}
                 out = observe_guarded(case, w)
                 if out["status"] == "unknown":
                     w.note_inconclusive("watchdog fired on a mutant but confirmation was not conclusive")
@@ -483,12 +494,19 @@ def run_job(job, w):
                     w.count("mistype_written_in_%s" % m.get("location"))
                     if m.get("class") == "nonintegral-float-for-int" and m.get("location") == "body":
                         w.count("mistype_nonintegral-float-for-int_in_body")
+                if base.get("hazard") and m.get("class") in ("cycle", "dangling-reference"):
+                    w.count("mutant_%s_in_document_with_folder_like_names" % m["class"])
+                    if m.get("relative"):
+                        w.count("mutant_relative_closing_edge_in_document_with_folder_like_names")
+                if m.get("relative"):
+                    w.count("mutant_relative_closing_edge")
                 if spelled_fault:
                     w.count("mutant_fault_at_variable_spelled_reference")
                     w.count("mutant_fault_at_variable_spelled_reference_%s_api" % api)
                 bad = judge_mutant(out, api)
                 if bad:
-                    case = {"api": api, "doc": m["doc"], "files": base["files"], "manifest": {}, "platform": platform}
+                    case = {"api": api, "doc": m["doc"], "files": base["files"], "manifest": base.get("manifest") or {},
+                            "platform": platform}
                     at = "/".join(map(str, m["where"])) + (" = %r (written in the %s)" % (m.get("value"), m["location"])
                                                              if m.get("location") else "")
                     w.violation("mutant %s/%s at %s: %s" % (m["kind"], m.get("class"), at, bad),
@@ -556,6 +574,11 @@ def main():
                         "mutants by (fault kind, value class, option path / key level, #components, replicated, "
                         "spelling form of the faulty reference, platform)",
                    assumptions=[
+                       "component names that equal a special folder (Data, INPUT, Bin, conF), an application dependency "
+                       "(MyApp vs myapp.application) or a manifest folder (Mydata vs mydata) UP TO CASE are generated; the "
+                       "exact lower-case spellings are not (data/input/bin/conf are reserved; a component called exactly like "
+                       "a declared dependency / manifest folder is shadowed by the folder); documents that declare the "
+                       "dependency / manifest folder are loaded (manifest handed to both APIs) but not materialised",
                        "base documents contain no DoWhile / $import documents and no component 'override' sections; "
                        "loop placeholders are therefore not exercised (see C05); a second platform only contributes "
                        "variables (global / stage) and is then the platform that both APIs load",
@@ -626,6 +649,11 @@ def main():
         c.floor("mutant_" + kind, 300 if thorough else 40)
     c.floor("base_with_array_variables", 300 if thorough else 60)
     c.floor("mutant_replica-outside-replication", 3000 if thorough else 400)
+    # component names that equal a special folder / application dependency / manifest folder up to case
+    c.floor("base_with_folder_like_component_names", 250 if thorough else 40)
+    c.floor("mutant_cycle_in_document_with_folder_like_names", 5000 if thorough else 500)
+    c.floor("mutant_dangling-reference_in_document_with_folder_like_names", 1500 if thorough else 150)
+    c.floor("mutant_relative_closing_edge", 5000 if thorough else 600)
     c.floor("mutant_remove-replication", 150 if thorough else 15)
     # classes of mistyped options (documented type <- kind of value), and where they are written
     for cls_, q, t in (("nonintegral-float-for-int", 80, 1500), ("nonintegral-numeric-string-for-int", 60, 1200),
